@@ -915,3 +915,359 @@ def _next_partname_twice(c):
         return
     c.ensures("second.scanned_the_current_parts", state["call"] == 2)
     c.ensures("second.fresh_among_current_parts", z3.ForAll([j], z3.Implies(z3.And(0 <= j, j < n2), PN2(j) != z2)))
+
+
+# ---------------------------------------------------------------------------------------------------------
+# BOUNDED: histories of additions over decks with awkward id populations; uniqueness and stability observed after each step
+
+_R_NS = "http://schemas.openxmlformats.org/officeDocument/2006/relationships"
+_R_ATTRS = ("{%s}id" % _R_NS, "{%s}embed" % _R_NS, "{%s}link" % _R_NS, "{%s}pict" % _R_NS)
+
+
+def _rel_target_key(rel):
+    return ("ext", rel.target_ref) if rel.is_external else ("part", id(rel.target_part))
+
+
+class _Tracker:
+    """what was observable before a step, to be compared with what is observable after it"""
+
+    def __init__(self, prs):
+        self.prs = prs
+        self.keep = []           # every element / part ever seen (kept alive so that identity is meaningful)
+        self.shape_id = {}       # id(cNvPr element) -> its @id at first sight
+        self.slide_id = {}       # id(slide part) -> slide id at first sight
+        self.refs = {}           # (id(element), attr) -> (rId, target key) at last sight
+
+    def _slide_parts(self):
+        prs = self.prs
+        parts = [(s.part, s) for s in prs.slides]
+        for s in prs.slides:
+            if s.has_notes_slide:
+                parts.append((s.notes_slide.part, s.notes_slide))
+        return parts
+
+    def observe(self, first=False):
+        """returns a description of the first thing that is wrong, else None; then records the new state"""
+        prs = self.prs
+        # -- slide ids
+        sldIdLst = prs.slides._sldIdLst
+        ids = [s.id for s in sldIdLst.sldId_lst]
+        if len(set(ids)) != len(ids):
+            return "slide ids are not unique: %s" % ids
+        for sld in prs.slides:
+            sid = sld.slide_id
+            if not first and id(sld.part) not in self.slide_id and not (256 <= sid <= MAXID):
+                return "new slide got id %r outside 256..2147483647" % sid
+            old = self.slide_id.setdefault(id(sld.part), sid)
+            self.keep.append(sld.part)
+            if old != sid:
+                return "slide id of an existing slide changed from %r to %r" % (old, sid)
+            if prs.slides.get(sid) is None or prs.slides.get(sid).part is not sld.part:
+                return "slides.get(%r) no longer designates the slide it did" % sid
+        # -- slide part names: unique in the package, slide1..n in presentation order
+        names = [str(p.partname) for p in prs.part.package.iter_parts()]
+        dup = sorted(n for n in set(names) if names.count(n) > 1)
+        if dup:
+            return "part names are not unique: %s" % dup
+        want = ["/ppt/slides/slide%d.xml" % (i + 1) for i in range(len(prs.slides))]
+        got = [str(s.part.partname) for s in prs.slides]
+        if got != want:
+            return "slide parts are named %s, presentation order demands %s" % (got, want)
+        # -- shape ids per slide-like part
+        for part, obj in self._slide_parts():
+            root = part._element
+            self.keep.append(root)
+            cnv = root.xpath("//p:cNvPr[not(ancestor::a:graphicData)]")  # the p:pic inside an embedded OLE object is not a shape of the slide
+            before_vals = None
+            new_here = []
+            for el in cnv:
+                self.keep.append(el)
+                v = el.get("id")
+                if id(el) in self.shape_id:
+                    if self.shape_id[id(el)] != v:
+                        return "%s: the id of an existing shape changed from %r to %r" % (part.partname, self.shape_id[id(el)], v)
+                else:
+                    self.shape_id[id(el)] = v
+                    if not first:
+                        new_here.append(el)
+            if new_here:
+                allvals = [el2.get("id") for el2 in cnv]  # the shape ids of the part (p:cTn/@id and the like are other id spaces)
+                for el in new_here:
+                    v = el.get("id")
+                    if not (v is not None and v.isdigit() and int(v) > 0):
+                        return "%s: new shape got id %r (not a positive integer)" % (part.partname, v)
+                    if allvals.count(v) > 1:
+                        return "%s: new shape got id %s, which is used %d times in the part" % (part.partname, v, allvals.count(v))
+            # lookups by id still designate the same element (for ids that are unique in the part)
+        # -- relationship ids: per source unique by construction of the mapping; not reassigned while in use
+        for part in list(prs.part.package.iter_parts()):
+            root = getattr(part, "_element", None)
+            if root is None:
+                continue
+            self.keep.append(root)
+            for el in root.iter():
+                if not isinstance(el.tag, str):
+                    continue
+                for at in _R_ATTRS:
+                    rid = el.get(at)
+                    if not rid:  # absent, or the empty r:id PowerPoint writes on a media hlinkClick
+                        self.refs.pop((id(el), at), None)
+                        continue
+                    self.keep.append(el)
+                    try:
+                        key = _rel_target_key(part.rels[rid])
+                    except KeyError:
+                        return "%s: <%s %s=%r> refers to a relationship the part does not have" % (part.partname, el.tag.split("}")[1], at.split("}")[1], rid)
+                    prev = self.refs.get((id(el), at))
+                    if prev is not None and prev[0] == rid and prev[1] != key:
+                        return "%s: %s of <%s> still in use but now designates another target (relationship id reassigned while in use)" % (
+                            part.partname, rid, el.tag.split("}")[1])
+                    self.refs[(id(el), at)] = (rid, key)
+        return None
+
+
+def _awkward_deck():
+    """slide parts named 7, 3, 9; shape ids with gaps, a huge id, a non-numeric @id, duplicate names; slide ids near the top"""
+    import io
+    import re
+    import zipfile
+
+    from pptx import Presentation
+
+    prs = Presentation()
+    for i in range(3):
+        s = prs.slides.add_slide(prs.slide_layouts[6])
+        for j in range(3):
+            s.shapes.add_textbox(0, 0, 10, 10).text_frame.text = "s%d_%d" % (i, j)
+        g = s.shapes.add_group_shape()
+        g.shapes.add_textbox(0, 0, 10, 10)
+    sp = prs.slides[0].shapes
+    cn = [x._element.xpath(".//p:cNvPr")[0] for x in sp]
+    cn[0].set("id", "2147483000")
+    cn[1].set("id", "17")
+    cn[1].set("name", "TextBox 2")
+    cn[2].set("name", "TextBox 2")
+    prs.slides[1].shapes[0]._element.xpath(".//p:cNvPr")[0].set("id", "40")
+    ids = prs.slides._sldIdLst.sldId_lst
+    ids[1].set("id", "2147483646")
+    ids[2].set("id", "300")
+    buf = io.BytesIO()
+    prs.save(buf)
+    ren = {"slide1.xml": "slide7.xml", "slide2.xml": "slide3.xml", "slide3.xml": "slide9.xml"}
+    src = zipfile.ZipFile(io.BytesIO(buf.getvalue()))
+    out = io.BytesIO()
+    with zipfile.ZipFile(out, "w") as z:
+        for n in src.namelist():
+            d = src.read(n)
+            n2 = n
+            m = re.fullmatch(r"ppt/slides/(_rels/)?(slide\d+\.xml)(\.rels)?", n)
+            if m:
+                n2 = "ppt/slides/%s%s%s" % (m.group(1) or "", "TMP" + ren[m.group(2)], m.group(3) or "")
+            for a, b in ren.items():
+                d = re.sub(rb'(["/])' + a.encode() + rb'"', lambda mm: mm.group(1) + b"TMP" + b.encode() + b'"', d)
+            if n == "ppt/slides/slide3.xml":
+                # a foreign attribute named id with a non-numeric value somewhere in the part
+                d = d.replace(b"<p:cSld>", b'<p:cSld><!-- x -->', 1).replace(b"<a:bodyPr", b'<a:bodyPr id="abc"', 1)
+            z.writestr(n2.replace("TMP", ""), d.replace(b"TMP", b""))
+    return out.getvalue()
+
+
+def _native_histories(tier="quick", seed=0):
+    import glob
+    import io
+    import os
+    import random
+    import struct
+    import time as _t
+    import zlib
+
+    from pptx import Presentation
+    from pptx.chart.data import CategoryChartData
+    from pptx.enum.chart import XL_CHART_TYPE
+    from pptx.enum.shapes import MSO_CONNECTOR, MSO_SHAPE
+    from pptx.util import Inches
+
+    t0 = _t.time()
+    obls, evals = [], [0]
+
+    def png(color):
+        raw = b"".join(b"\x00" + bytes(color) * 2 for _ in range(2))
+
+        def ch(t, d):
+            return struct.pack(">I", len(d)) + t + d + struct.pack(">I", zlib.crc32(t + d) & 0xFFFFFFFF)
+        return b"\x89PNG\r\n\x1a\n" + ch(b"IHDR", struct.pack(">IIBBBBB", 2, 2, 8, 2, 0, 0, 0)) + ch(b"IDAT", zlib.compress(raw)) + ch(b"IEND", b"")
+
+    def rec(name, bad):
+        r = {"name": name, "base": name, "kind": "bounded", "status": "refuted" if bad else "discharged", "backend": "native", "time": 0, "path": 0}
+        if bad:
+            r["replay"] = {"confirmed": True, "witness_class": "history", "detail": bad}
+            r["model"] = None
+        obls.append(r)
+
+    def a_slide(prs, rnd):
+        if not len(prs.slides):
+            prs.slides.add_slide(prs.slide_layouts[6])
+        return prs.slides[rnd.randrange(len(prs.slides))]
+
+    def shapes_of(prs, rnd):
+        """a shape collection: the slide's, or that of a (possibly nested) group on it"""
+        sh = a_slide(prs, rnd).shapes
+        for _ in range(2):
+            groups = [x for x in sh if x.shape_type is not None and "GROUP" in str(x.shape_type)]
+            if groups and rnd.random() < 0.4:
+                sh = rnd.choice(groups).shapes
+        return sh
+
+    def op_slide(prs, rnd):
+        prs.slides.add_slide(prs.slide_layouts[rnd.randrange(len(prs.slide_layouts))])
+
+    def op_shape(prs, rnd):
+        sh = shapes_of(prs, rnd)
+        k = rnd.randrange(5)
+        if k == 0:
+            sh.add_shape(MSO_SHAPE.RECTANGLE, 0, 0, 100, 100)
+        elif k == 1:
+            sh.add_textbox(0, 0, 100, 100)
+        elif k == 2:
+            sh.add_connector(MSO_CONNECTOR.STRAIGHT, 0, 0, 10, 10)
+        elif k == 3:
+            sh.add_group_shape().shapes.add_textbox(0, 0, 10, 10)
+        else:
+            sh.build_freeform(0, 0).add_line_segments([(10, 10), (20, 0)]).convert_to_shape()
+
+    def op_turbo(prs, rnd):
+        sh = a_slide(prs, rnd).shapes
+        sh.turbo_add_enabled = True
+        for _ in range(3):
+            sh.add_textbox(0, 0, 10, 10)
+        sh.add_group_shape()
+        sh.turbo_add_enabled = False
+
+    def op_graphic(prs, rnd):
+        sh = a_slide(prs, rnd).shapes
+        k = rnd.randrange(4)
+        if k == 0:
+            sh.add_table(2, 2, 0, 0, 1000, 1000)
+        elif k == 1:
+            d = CategoryChartData()
+            d.categories = ["a", "b"]
+            d.add_series("s", (1, 2))
+            sh.add_chart(rnd.choice([XL_CHART_TYPE.COLUMN_CLUSTERED, XL_CHART_TYPE.PIE]), 0, 0, Inches(2), Inches(2), d)
+        elif k == 2:
+            sh.add_ole_object(io.BytesIO(b"PK\x03\x04fake"), "Some.ProgId", 0, 0, 100, 100)
+        else:
+            sh.add_movie(io.BytesIO(b"\x00\x00\x00\x18ftypmp42" + bytes([rnd.randrange(3)])), 0, 0, 100, 100, poster_frame_image=None, mime_type="video/mp4")
+
+    def op_picture(prs, rnd):
+        shapes_of(prs, rnd).add_picture(io.BytesIO(png(rnd.choice([(255, 0, 0), (0, 255, 0), (0, 0, 255)]))), 0, 0)
+
+    def op_placeholder(prs, rnd):
+        lays = [l for l in prs.slide_layouts if any("PICTURE" in str(ph.placeholder_format.type) for ph in l.placeholders)]
+        if not lays:
+            return
+        s = prs.slides.add_slide(lays[0])
+        for ph in s.placeholders:
+            if "PICTURE" in str(ph.placeholder_format.type):
+                ph.insert_picture(io.BytesIO(png((9, 9, rnd.randrange(3)))))
+                break
+
+    def op_notes(prs, rnd):
+        a_slide(prs, rnd).notes_slide.notes_text_frame.text = "n"
+
+    URLS = ["http://a/", "http://b/", "http://c/"]
+
+    def runs_of(slide):
+        out = []
+        for shp in slide.shapes:
+            if shp.has_text_frame:
+                for p in shp.text_frame.paragraphs:
+                    out.extend(p.runs)
+        return out
+
+    def op_link(prs, rnd):
+        """hyperlinks on runs and shapes; the same URL on a part shares one relationship"""
+        s = a_slide(prs, rnd)
+        tb = s.shapes.add_textbox(0, 0, 10, 10)
+        for _ in range(rnd.randrange(1, 3)):
+            r = tb.text_frame.paragraphs[0].add_run()
+            r.text = "link"
+            r.hyperlink.address = rnd.choice(URLS)
+        if rnd.random() < 0.5:
+            s.shapes.add_shape(MSO_SHAPE.OVAL, 0, 0, 10, 10).click_action.hyperlink.address = rnd.choice(URLS)
+
+    def op_relink(prs, rnd):
+        """re-point or clear the hyperlink of an existing run / shape, then add something that needs a new relationship"""
+        s = a_slide(prs, rnd)
+        linked = [r for r in runs_of(s) if r.hyperlink.address is not None]
+        if linked:
+            rnd.choice(linked).hyperlink.address = rnd.choice(URLS + [None, "http://new%d/" % rnd.randrange(99)])
+        acts = [x for x in s.shapes if "GROUP" not in str(x.shape_type) and hasattr(type(x), "click_action") and x.click_action.hyperlink.address is not None]
+        if acts and rnd.random() < 0.5:
+            rnd.choice(acts).click_action.hyperlink.address = rnd.choice(URLS + [None])
+        if rnd.random() < 0.7:
+            s.shapes.add_picture(io.BytesIO(png((rnd.randrange(250), 1, 2))), 0, 0)
+
+    def op_jump(prs, rnd):
+        s = a_slide(prs, rnd)
+        sh = s.shapes.add_shape(MSO_SHAPE.OVAL, 0, 0, 10, 10)
+        sh.click_action.target_slide = a_slide(prs, rnd)
+        if rnd.random() < 0.4:
+            sh.click_action.target_slide = rnd.choice([None, a_slide(prs, rnd)])
+
+    def op_reopen(prs, rnd):
+        raise _Reopen()
+
+    class _Reopen(Exception):
+        pass
+
+    ops = [op_slide, op_shape, op_shape, op_turbo, op_graphic, op_picture, op_placeholder, op_notes, op_link, op_link, op_relink, op_relink, op_jump]
+
+    repo = os.environ.get("PPTX_REPO", "/repo")
+    starts = [("default_template", None), ("awkward_ids_and_names", _awkward_deck())]
+    for f in sorted(glob.glob(os.path.join(repo, "features", "steps", "test_files", "*.pptx"))):
+        if os.path.basename(f) in (("shp-shapes.pptx", "test.pptx") if tier == "quick" else ("shp-shapes.pptx", "test.pptx", "shp-groupshape.pptx", "sld-slides.pptx", "act-props.pptx", "cht-charts.pptx")):
+            starts.append((os.path.basename(f), open(f, "rb").read()))
+    N = 30 if tier == "quick" else 400
+    L = 10 if tier == "quick" else 16
+    for label, start in starts:
+        rnd = random.Random(seed * 104729 + len(label))
+        bad = None
+        for h in range(N if start is None or label.startswith("awkward") else max(3, N // 5)):
+            prs = Presentation(io.BytesIO(start)) if start else Presentation()
+            try:
+                _ = len(prs.slides)
+                tr = _Tracker(prs)
+                pre = tr.observe(first=True)
+            except Exception as e:
+                pre = "cannot be observed: %r" % (e,)
+            if pre:
+                # the starting deck itself is outside the property's premise (e.g. duplicate slide ids): not judged
+                break
+            hist = []
+            for step in range(L):
+                op = rnd.choice(ops)
+                hist.append(op.__name__)
+                try:
+                    op(prs, rnd)
+                except Exception as e:
+                    bad = bad or "%s, history %s: %s raised %r" % (label, hist, op.__name__, e)
+                    break
+                evals[0] += 1
+                try:
+                    w = tr.observe()
+                except Exception as e:
+                    w = "observation raised %r" % (e,)
+                if w:
+                    bad = bad or "%s, history %s: %s" % (label, hist, w)
+                    break
+            if bad:
+                break
+        rec("C06.native.histories[%s]" % label, bad)
+    return {"contract": "C06.native_histories", "prop": "C06", "status": "ok", "obligations": obls, "paths": 0, "assumed": [], "functions": {},
+            "notes": [], "solver_s": 0.0, "wall_s": _t.time() - t0,
+            "bounded": {"name": "C06.native_histories", "bound": "random histories of %d additions (13 operation kinds incl. nested groups, turbo mode, shared and re-pointed hyperlinks) "
+                        "from the default template, a deck with slide parts 7/3/9, huge / non-numeric / gapped ids and duplicate names, and corpus decks; observed after every step" % L,
+                        "evaluations": evals[0], "samples": [], "counted_as_proved": False}}
+
+
+JOBS = {"C06.native_histories": _native_histories}
